@@ -63,7 +63,7 @@ def _writes(out, t, P, form, ident, combos, mult, route, mask=False):
         out.append(Case(f"C19/{nm}_{ident[:-1]},op={OPN[op]}]", body, route=f"{nm}." + route, cost=(0.25 + 0.2 * len(rhss)) * mult))
 
 
-FULL = {op: [0, 1, 2, 3] for op in range(5)}
+FULL = {op: [0, 1, 2, 3, 4] for op in range(5)}          # 4 = a right-hand side that requires evaluation ((2I) % B)
 LEAN = {0: [0, 1, 2, 3], 1: [1], 2: [1], 3: [1], 4: [1]}        # every operator with a tensor, '=' with every kind
 MINI = {0: [1, 3], 1: [1, 3]}
 
@@ -169,7 +169,7 @@ def bounds(tier):
          "(K=4 and W+1). 2-D parents (3,4) and (4,W+1): A(it0,it1) with (K0,K1) in {(2,2),(1,3)} / {(2,3),(3,W+1)} (+ mixed int64xint and "
          "size_txsize_t on (2,2)), A(it,k) and A(k,it) with K in {2,4} and every k, A(it,fseq) with fseq in {all columns, 1:W+1:2}, A(fseq,it) "
          "with fseq in {all rows, 1:4:2}, flat 2x2 index tensor over (3,4) (12^4 contents). Read contexts: construct, r += view, 2*view+1, "
-         "const parent. Writes: five operators x {scalar, tensor, 2*B+1, another random view (reversed / repeated indices on a second parent)}, "
+         "const parent. Writes: five operators x {scalar, tensor, 2*B+1, another random view (reversed / repeated indices on a second parent), (2I) % B}, "
          "all twenty on K=4, K=W+1, (2,2) and the N=12 mask, otherwise every operator with a tensor and '=' with every kind. Masks: all 2^12 on "
          "N=12 and on (3,4), structured on N=max(W+3,14). Types f32,f64,i32,i64. ")
     if tier == "quick":
